@@ -404,7 +404,8 @@ def eq_generators():
                                                                               stok(*rshape(rng))))(rshape(rng, 3)[0]) + inv(rng)
     G["primitivApplyTensorParameter"] = lambda rng: (lambda d: "%s %s %d" % (stok(d, 1), ttok(rng, d, 1), rng.choice([0, 1])))(rshape(rng, 3)[0]) + inv(rng)
     G["primitivGetParameterStats"] = lambda rng: (lambda d: "%s %s s:%s" % (stok(d, 1), ttok(rng, d, 1), rng.choice(["present", "no-such-stats", "m", "x.y"])))(rshape(rng, 3)[0])
-    G["primitivSaveParameter"] = lambda rng: (lambda d: "%s %s %d %d" % (stok(d, 1), ttok(rng, d, 1), rng.choice([0, 1]), rng.choice([0, 1])))(rshape(rng, 3)[0]) + inv(rng)
+    # with_stats is a PRIMITIV_C_BOOL: zero / non-zero, not 0 / 1
+    G["primitivSaveParameter"] = lambda rng: (lambda d: "%s %s %d %d" % (stok(d, 1), ttok(rng, d, 1), rng.choice([0, 1, 2, 256, 2147483648, U32MAX]), rng.choice([0, 1])))(rshape(rng, 3)[0]) + inv(rng)
     G["primitivAddParameterToModel"] = lambda rng: "s:%s s:%s" % (rng.choice(["a", "p", "w.x", "q"]), rng.choice(["a", "b", "sub", "q"]))
     G["primitivCreateModel"] = lambda rng: ""
     for nm in OPT_NAMES:
